@@ -4,6 +4,8 @@ import InfluxQL.Lemmas.Digits
 import InfluxQL.Lemmas.ParserTok
 import InfluxQL.Lemmas.StmtPieces
 import InfluxQL.Lemmas.StmtExprPieces
+import InfluxQL.Lemmas.SelectPieces
+import InfluxQL.Lemmas.SelectClauses
 import InfluxQL.Lemmas.IntLit
 import InfluxQL.Lemmas.RegexRoundTrip
 import InfluxQL.Lemmas.NumberRoundTrip
@@ -2177,6 +2179,376 @@ end
 example : (match (runHandler 201 .parseSelectStatement_targetNotRequired).run (PState.init exSelectText [] []) with
     | .ok _ => true
     | .error _ => false) = true := by decide +kernel
+
+
+/-! ### SELECT with qualified sources and `INTO` -/
+
+/-- `SELECT f, fs… [INTO tgt] FROM q, qs… [WHERE c] [LIMIT l] [OFFSET o] [SLIMIT sl] [SOFFSET so]` as the parser
+builds it; measurements are given as (database, retention policy, name). -/
+def intoSelect (f : Field) (fs : List Field) (tgt : Option (Str × Str × Str)) (q : Str × Str × Str)
+    (qs : List (Str × Str × Str)) (c : Option Expr) (l o sl so : Int) : SelectStmt :=
+  .mk (f :: fs) (tgt.map tgtM) [] ((q :: qs).map qualSrc) c [] l o sl so true .null .none none [] false false [] false
+
+/-- The target, when there is one, has three expressible parts and a name. -/
+def TargetOK (tgt : Option (Str × Str × Str)) : Prop := ∀ t, tgt = some t → QualOK t
+
+instance (tgt : Option (Str × Str × Str)) : Decidable (TargetOK tgt) :=
+  match tgt with
+  | none => isTrue (fun _ h => by cases h)
+  | some t => if h : QualOK t then isTrue (fun t' ht => by cases ht; exact h)
+    else isFalse (fun hc => h (hc t rfl))
+
+/-- The statements `selectInto_print_parse_partial` covers (decidable): `SimpleSelect` with measurements
+`db.rp.m` / `db..m` / `rp.m` / `m` as sources and as target — every part expressible (no NUL, no CR), the
+name not empty (finding `empty-identifier-not-printed`: `a.b.` and `INTO a.b.:MEASUREMENT` are other texts). -/
+def IntoSelect (f : Field) (fs : List Field) (tgt : Option (Str × Str × Str)) (q : Str × Str × Str)
+    (qs : List (Str × Str × Str)) (c : Option Expr) (l o sl so : Int) : Prop :=
+  (∀ g ∈ f :: fs, FieldOK g) ∧ TargetOK tgt ∧ (∀ m ∈ q :: qs, QualOK m) ∧ CondOK c ∧
+  (0 ≤ l ∧ l ≤ maxInt64) ∧ (0 ≤ o ∧ o ≤ maxInt64) ∧ (0 ≤ sl ∧ sl ≤ maxInt64) ∧ (0 ≤ so ∧ so ≤ maxInt64)
+
+instance (f : Field) (fs : List Field) (tgt : Option (Str × Str × Str)) (q : Str × Str × Str)
+    (qs : List (Str × Str × Str)) (c : Option Expr) (l o sl so : Int) :
+    Decidable (IntoSelect f fs tgt q qs c l o sl so) := by unfold IntoSelect; exact inferInstance
+
+/-- What is printed after the keyword SELECT. -/
+def selectIntoText (f : Field) (fs : List Field) (tgt : Option (Str × Str × Str)) (q : Str × Str × Str)
+    (qs : List (Str × Str × Str)) (c : Option Expr) (l o sl so : Int) : Str :=
+  ' ' :: (f.print ++ (moreFields fs ++ (targetText tgt ++ (fromQualText q qs ++ (whereText c ++ (posText .LIMIT l ++
+    (posText .OFFSET o ++ (posText .SLIMIT sl ++ posText .SOFFSET so))))))))
+
+/-- The pieces are what `SelectStatement.String()` writes (for every value, also outside the class). -/
+theorem selectInto_print (f : Field) (fs : List Field) (tgt : Option (Str × Str × Str)) (q : Str × Str × Str)
+    (qs : List (Str × Str × Str)) (c : Option Expr) (l o sl so : Int) :
+    (Statement.select (intoSelect f fs tgt q qs c l o sl so)).print =
+      tx "SELECT" ++ selectIntoText f fs tgt q qs c l o sl so := by
+  have p1 : (Statement.select (intoSelect f fs tgt q qs c l o sl so)).print =
+      tx "SELECT " ++ joinWith (tx ", ") ((f :: fs).map Field.print) ++ targetText tgt ++
+        (tx " FROM " ++ printSources ((q :: qs).map qualSrc)) ++ clauseWhere c ++ clauseGroupBy [] ++
+        printFill .null .none ++ clauseOrderBy [] ++ clausePos "LIMIT" l ++ clausePos "OFFSET" o ++
+        clausePos "SLIMIT" sl ++ clausePos "SOFFSET" so ++ [] := by
+    cases tgt <;> rfl
+  have e0 : clauseOrderBy [] = [] := rfl
+  have e1 : clauseGroupBy [] = [] := rfl
+  have e2 : printFill .null .none = [] := rfl
+  have e3 : tx "SELECT " = tx "SELECT" ++ [' '] := by decide +kernel
+  have e4 : tx " FROM " = ' ' :: (Token.FROM.str ++ [' ']) := by decide +kernel
+  rw [p1, joinFields, printSources_quals q qs, clauseWhere_eq, (clausePos_eq l).1, (clausePos_eq o).2.1,
+    (clausePos_eq sl).2.2.1, (clausePos_eq so).2.2.2, e0, e1, e2, e3, e4]
+  simp only [selectIntoText, fromQualText, List.append_assoc, List.append_nil, List.nil_append, List.cons_append]
+
+/-- **Print → parse, SELECT with qualified sources and `INTO`.** `parseSelectStatement` on the text printed
+after the keyword `SELECT`, followed by `k`, returns exactly the statement — the target and every source with
+Database / RetentionPolicy / Name in their slots (`db.rp.m`, `db..m`, `rp.m`, `m`) — and stands before `k`, or
+the fuel was too small.
+
+Partial — the class `IntoSelect`: as `SimpleSelect` (printable fields without calls, printable condition,
+limits in range) with qualified measurements whose name is not empty (finding `empty-identifier-not-printed`).
+Not covered here: subqueries, regex sources, GROUP BY, fill(), ORDER BY, TZ() (see
+`selectClauses_print_parse_partial`), calls, wildcards, number / duration literals in fields and conditions. -/
+theorem selectInto_print_parse_partial (fuel : Nat) (s : PState) (f : Field) (fs : List Field)
+    (tgt : Option (Str × Str × Str)) (q : Str × Str × Str) (qs : List (Str × Str × Str))
+    (c : Option Expr) (l o sl so : Int) (k : Str) (hok : IntoSelect f fs tgt q qs c l o sl so)
+    (hk : Follow k selectStop) (hs : s.Before (selectIntoText f fs tgt q qs c l o sl so ++ k)) :
+    wp (runHandler (fuel + 1) .parseSelectStatement_targetNotRequired) s
+      (fun st s' => st = .select (intoSelect f fs tgt q qs c l o sl so) ∧ RT.Stand s' k) (· = .fuel) := by
+  obtain ⟨hf, ht, hn, hc, hl, ho, hsl, hso⟩ := hok
+  have g7 : Follow (posText .SOFFSET so ++ k) [.AS, .COMMA, .INTO, .FROM, .WHERE, .GROUP, .IDENT, .ORDER, .LIMIT, .OFFSET, .SLIMIT] :=
+    Follow.opt (kwText_pos _ _) (by decide +kernel) rfl (by decide) (hk.mono (by decide))
+  have g6 : Follow (posText .SLIMIT sl ++ (posText .SOFFSET so ++ k))
+      [.AS, .COMMA, .INTO, .FROM, .WHERE, .GROUP, .IDENT, .ORDER, .LIMIT, .OFFSET] :=
+    Follow.opt (kwText_pos _ _) (by decide +kernel) rfl (by decide) (g7.mono (by decide))
+  have g5 : Follow (posText .OFFSET o ++ (posText .SLIMIT sl ++ (posText .SOFFSET so ++ k)))
+      [.AS, .COMMA, .INTO, .FROM, .WHERE, .GROUP, .IDENT, .ORDER, .LIMIT] :=
+    Follow.opt (kwText_pos _ _) (by decide +kernel) rfl (by decide) (g6.mono (by decide))
+  have g4 : Follow (posText .LIMIT l ++ (posText .OFFSET o ++ (posText .SLIMIT sl ++ (posText .SOFFSET so ++ k))))
+      [.AS, .COMMA, .INTO, .FROM, .WHERE, .GROUP, .IDENT, .ORDER] :=
+    Follow.opt (kwText_pos _ _) (by decide +kernel) rfl (by decide) (g5.mono (by decide))
+  have g3 : Follow (whereText c ++ (posText .LIMIT l ++ (posText .OFFSET o ++ (posText .SLIMIT sl ++
+      (posText .SOFFSET so ++ k))))) [.AS, .COMMA, .INTO, .FROM] :=
+    Follow.opt (kwText_where _) (by decide +kernel) rfl (by decide) (g4.mono (by decide))
+  have g2 : Follow (fromQualText q qs ++ (whereText c ++ (posText .LIMIT l ++ (posText .OFFSET o ++
+      (posText .SLIMIT sl ++ (posText .SOFFSET so ++ k)))))) [.AS, .COMMA, .INTO] :=
+    Follow.opt (kwText_fromQual _ _) (by decide +kernel) rfl (by decide) (g3.mono (by decide))
+  have g1 : Follow (targetText tgt ++ (fromQualText q qs ++ (whereText c ++ (posText .LIMIT l ++ (posText .OFFSET o ++
+      (posText .SLIMIT sl ++ (posText .SOFFSET so ++ k))))))) [.AS, .COMMA] :=
+    Follow.opt (kwText_target _) (by decide +kernel) rfl (by decide) (g2.mono (by decide))
+  have hs0 : s.Before (' ' :: (f.print ++ (moreFields fs ++ (targetText tgt ++ (fromQualText q qs ++ (whereText c ++
+      (posText .LIMIT l ++ (posText .OFFSET o ++ (posText .SLIMIT sl ++ (posText .SOFFSET so ++ k)))))))))) := by
+    simpa [selectIntoText, List.append_assoc] using hs
+  simp only [runHandler, parseSelect, parseSelectBody]
+  rw [wp_bind, wp_bind]
+  refine wp_mono (parseFields_print fuel s f fs _ hf g1 hs0) ?_ (fun _ h => h)
+  intro flds s1 ⟨hflds, st1⟩
+  subst hflds
+  obtain ⟨s2, lx3, s3, h2, h3, t3, b3⟩ := parseTarget_stand s1 tgt ((qualM q).print ++ (moreQuals qs ++ (whereText c ++
+      (posText .LIMIT l ++ (posText .OFFSET o ++ (posText .SLIMIT sl ++ (posText .SOFFSET so ++ k))))))) ht
+    (by simpa [fromQualText, List.append_assoc] using g2.mono (by decide))
+    (by simpa [fromQualText, List.append_assoc] using st1)
+  have h3' : (expectTok .FROM ["FROM"]).run s2 = .ok ((), s3) := by
+    unfold expectTok
+    rw [P.run_bind _ _ _ _ _ h3]
+    simp [t3, StateT.run, pure, StateT.pure, Except.pure]
+  obtain ⟨s4, h4, st4⟩ := parseSourcesWith_quals (some (parseSelect fuel false)) s3 q qs _ hn (g3.mono (by decide)) b3
+  rw [wp_bind, wp_of_run_ok h2, wp_bind, wp_of_run_ok h3', wp_bind, wp_of_run_ok h4, wp_bind]
+  refine wp_mono (parseCondition_print fuel s4 c _ hc (g4.mono (by decide)) st4) ?_ (fun _ h => h)
+  intro c' s5 ⟨hc', st5⟩
+  subst hc'
+  obtain ⟨s6, h6, st6⟩ := parseDimensions_absent fuel s5 _ (g4.mono (by decide)) st5
+  obtain ⟨s7, h7, st7⟩ := parseFill_absent fuel s6 _ (g4.mono (by decide)) st6
+  obtain ⟨s8, h8, st8⟩ := parseOrderBy_absent s7 _ (g4.mono (by decide)) st7
+  obtain ⟨s9, h9, st9⟩ := parseOptTokInt_print .LIMIT (by decide +kernel) s8 l _ hl.1 hl.2 (g5.mono (by decide)) st8
+  obtain ⟨s10, h10, st10⟩ := parseOptTokInt_print .OFFSET (by decide +kernel) s9 o _ ho.1 ho.2 (g6.mono (by decide)) st9
+  obtain ⟨s11, h11, st11⟩ := parseOptTokInt_print .SLIMIT (by decide +kernel) s10 sl _ hsl.1 hsl.2 (g7.mono (by decide)) st10
+  obtain ⟨s12, h12, st12⟩ := parseOptTokInt_print .SOFFSET (by decide +kernel) s11 so k hso.1 hso.2 (hk.mono (by decide)) st11
+  obtain ⟨s13, h13, st13⟩ := parseLocation_absent fuel s12 k (hk.mono (by decide)) st12
+  rw [wp_bind, wp_of_run_ok h6, wp_bind, wp_of_run_ok h7]
+  simp only []
+  rw [wp_bind, wp_of_run_ok h8, wp_bind, wp_of_run_ok h9, wp_bind, wp_of_run_ok h10, wp_bind, wp_of_run_ok h11,
+    wp_bind, wp_of_run_ok h12, wp_bind, wp_of_run_ok h13, wp_pure, wp_pure]
+  refine ⟨?_, st13⟩
+  have hraw : (!(f :: fs).any fun g => g.expr.hasCall) = true := by
+    rw [Bool.not_eq_true', List.any_eq_false]
+    intro g hg
+    rw [hasCall_false g.expr (hf g hg).1]
+    simp
+  rw [hraw]
+  rfl
+
+/-- Non-vacuity: `SELECT a + 1 AS "x y", b INTO "my db"..tgt FROM db.rp."x.y", "my db"..cpu, rp.m, m WHERE … LIMIT 10 SLIMIT 2`. -/
+def exTgt : Option (Str × Str × Str) := some ("my db".toList, [], "tgt".toList)
+def exQ : Str × Str × Str := ("db".toList, "rp".toList, "x.y".toList)
+def exQs : List (Str × Str × Str) := [("my db".toList, [], "cpu".toList), ([], "rp".toList, ['m']), ([], [], ['m'])]
+def exIntoText : Str := selectIntoText exF1 [⟨.varRef ['b'] .Unknown, []⟩] exTgt exQ exQs exCond 10 0 2 0
+
+example : exIntoText = (" a + 1 AS \"x y\", b INTO \"my db\"..tgt FROM db.rp.\"x.y\", \"my db\"..cpu, rp.m, m " ++
+    "WHERE host = 'a' AND (x > -1 OR y =~ /^b/) LIMIT 10 SLIMIT 2").toList := by decide +kernel
+
+example : IntoSelect exF1 [⟨.varRef ['b'] .Unknown, []⟩] exTgt exQ exQs exCond 10 0 2 0 := by decide +kernel
+
+-- a measurement without a name is not in the class
+example : ¬ QualOK ("a".toList, "b".toList, []) := by decide +kernel
+
+section
+attribute [local irreducible] wp
+example : wp (runHandler 201 .parseSelectStatement_targetNotRequired) (PState.init exIntoText [] [])
+    (fun st s' => st = .select (intoSelect exF1 [⟨.varRef ['b'] .Unknown, []⟩] exTgt exQ exQs exCond 10 0 2 0) ∧
+      RT.Stand s' [eofRune]) (· = .fuel) :=
+  selectInto_print_parse_partial 200 (PState.init exIntoText [] []) exF1 [⟨.varRef ['b'] .Unknown, []⟩] exTgt exQ exQs
+    exCond 10 0 2 0 [eofRune] (by decide +kernel) (Follow.eof _ (by decide)) (init_before exIntoText (by decide +kernel))
+end
+
+example : (match (runHandler 201 .parseSelectStatement_targetNotRequired).run (PState.init exIntoText [] []) with
+    | .ok (.select st, _) => st.print == tx "SELECT" ++ exIntoText
+    | _ => false) = true := by decide +kernel
+
+
+/-! ### SELECT with GROUP BY, ORDER BY and TZ() -/
+
+/-- `SELECT … [INTO tgt] FROM … [WHERE c] [GROUP BY ds] [ORDER BY sf] [LIMIT] [OFFSET] [SLIMIT] [SOFFSET] [TZ('loc')]`
+as the parser builds it. -/
+def clauseSelect (f : Field) (fs : List Field) (tgt : Option (Str × Str × Str)) (q : Str × Str × Str)
+    (qs : List (Str × Str × Str)) (c : Option Expr) (ds : List Expr) (sf : List SortField) (l o sl so : Int)
+    (loc : Option Str) : SelectStmt :=
+  .mk (f :: fs) (tgt.map tgtM) ds ((q :: qs).map qualSrc) c sf l o sl so true .null .none loc [] false false [] false
+
+def locOKB : Option Str → Bool
+  | none => true
+  | some n => plainNameB n
+
+/-- The statements `selectClauses_print_parse_partial` covers (decidable): `IntoSelect`, dimensions of C03's class
+`Printable` (tag names — printed by `QuoteIdent` — and printable expressions), the four sort lists the parser can
+return (`ASC`, `DESC`, `time ASC`, `time DESC`), a location name without quote, backslash, newline (the printer
+does not escape it) that is not empty (the parser stores `UTC` for `tz('')`). -/
+def ClauseSelect (f : Field) (fs : List Field) (tgt : Option (Str × Str × Str)) (q : Str × Str × Str)
+    (qs : List (Str × Str × Str)) (c : Option Expr) (ds : List Expr) (sf : List SortField) (l o sl so : Int)
+    (loc : Option Str) : Prop :=
+  IntoSelect f fs tgt q qs c l o sl so ∧ (∀ x ∈ ds, RT.rtOK false x = true) ∧ sortOKB sf = true ∧ locOKB loc = true
+
+instance (f : Field) (fs : List Field) (tgt : Option (Str × Str × Str)) (q : Str × Str × Str)
+    (qs : List (Str × Str × Str)) (c : Option Expr) (ds : List Expr) (sf : List SortField) (l o sl so : Int)
+    (loc : Option Str) : Decidable (ClauseSelect f fs tgt q qs c ds sf l o sl so loc) := by
+  unfold ClauseSelect; exact inferInstance
+
+/-- What is printed after the keyword SELECT. -/
+def selectClausesText (f : Field) (fs : List Field) (tgt : Option (Str × Str × Str)) (q : Str × Str × Str)
+    (qs : List (Str × Str × Str)) (c : Option Expr) (ds : List Expr) (sf : List SortField) (l o sl so : Int)
+    (loc : Option Str) : Str :=
+  ' ' :: (f.print ++ (moreFields fs ++ (targetText tgt ++ (fromQualText q qs ++ (whereText c ++ (groupText ds ++
+    (orderText sf ++ (posText .LIMIT l ++ (posText .OFFSET o ++ (posText .SLIMIT sl ++ (posText .SOFFSET so ++
+      tzText loc)))))))))))
+
+/-- The pieces are what `SelectStatement.String()` writes (for every sort list of the class). -/
+theorem selectClauses_print (f : Field) (fs : List Field) (tgt : Option (Str × Str × Str)) (q : Str × Str × Str)
+    (qs : List (Str × Str × Str)) (c : Option Expr) (ds : List Expr) (sf : List SortField) (l o sl so : Int)
+    (loc : Option Str) (hsf : sortOKB sf = true) :
+    (Statement.select (clauseSelect f fs tgt q qs c ds sf l o sl so loc)).print =
+      tx "SELECT" ++ selectClausesText f fs tgt q qs c ds sf l o sl so loc := by
+  have p1 : (Statement.select (clauseSelect f fs tgt q qs c ds sf l o sl so loc)).print =
+      tx "SELECT " ++ joinWith (tx ", ") ((f :: fs).map Field.print) ++ targetText tgt ++
+        (tx " FROM " ++ printSources ((q :: qs).map qualSrc)) ++ clauseWhere c ++ clauseGroupBy ds ++
+        printFill .null .none ++ clauseOrderBy sf ++ clausePos "LIMIT" l ++ clausePos "OFFSET" o ++
+        clausePos "SLIMIT" sl ++ clausePos "SOFFSET" so ++
+        loc.elim [] (fun n => tx " TZ('" ++ n ++ tx "')") := by
+    cases tgt <;> cases loc <;> rfl
+  have etz : loc.elim [] (fun n => tx " TZ('" ++ n ++ tx "')") = tzText loc := by
+    cases loc with
+    | none => rfl
+    | some n => exact tz_print (some n)
+  have e2 : printFill .null .none = [] := rfl
+  have e3 : tx "SELECT " = tx "SELECT" ++ [' '] := by decide +kernel
+  have e4 : tx " FROM " = ' ' :: (Token.FROM.str ++ [' ']) := by decide +kernel
+  rw [p1, joinFields, printSources_quals q qs, clauseWhere_eq, (clausePos_eq l).1, (clausePos_eq o).2.1,
+    (clausePos_eq sl).2.2.1, (clausePos_eq so).2.2.2, clauseOrderBy_eq sf hsf, clauseGroupBy_eq, etz, e2, e3, e4]
+  simp only [selectClausesText, fromQualText, List.append_assoc, List.append_nil, List.nil_append, List.cons_append]
+
+/-- The tokens that continue a SELECT statement (without IDENT). -/
+def clauseStop : List Token :=
+  [.AS, .COMMA, .INTO, .FROM, .WHERE, .GROUP, .ORDER, .LIMIT, .OFFSET, .SLIMIT, .SOFFSET]
+
+/-- **Print → parse, SELECT with GROUP BY, ORDER BY, TZ()** (and `INTO`, qualified sources, WHERE, the four limits).
+`parseSelectStatement` on the text printed after the keyword `SELECT`, followed by `k`, returns exactly the
+statement and stands before `k` — or the fuel was too small.
+
+Partial — the class `ClauseSelect`. Still excluded (all producible by the parser): `fill(…)` and the dimension
+`time(…)` (clause-level lemma for calls `parseExpr_call` is there, but `parseCall` lower-cases the call name with
+the table shipped with the input, and no frame lemma "the table is unchanged by parseFields / parseSources" is
+proved yet), the dimension `*`, regex dimensions, subqueries, regex sources, calls / wildcards / number and
+duration literals in fields and conditions, location names with a quote or backslash (printed unescaped; no
+zone has such a name), empty measurement names (finding `empty-identifier-not-printed`). -/
+theorem selectClauses_print_parse_partial (fuel : Nat) (s : PState) (f : Field) (fs : List Field)
+    (tgt : Option (Str × Str × Str)) (q : Str × Str × Str) (qs : List (Str × Str × Str))
+    (c : Option Expr) (ds : List Expr) (sf : List SortField) (l o sl so : Int) (loc : Option Str) (k : Str)
+    (hok : ClauseSelect f fs tgt q qs c ds sf l o sl so loc) (hk : Follow k selectStop)
+    (hs : s.Before (selectClausesText f fs tgt q qs c ds sf l o sl so loc ++ k)) :
+    wp (runHandler (fuel + 4) .parseSelectStatement_targetNotRequired) s
+      (fun st s' => st = .select (clauseSelect f fs tgt q qs c ds sf l o sl so loc) ∧ RT.Stand s' k) (· = .fuel) := by
+  obtain ⟨⟨hf, ht, hn, hc, hl, ho, hsl, hso⟩, hds, hsf, hloc⟩ := hok
+  have hloc' : ∀ n, loc = some n → plainNameB n = true := by
+    intro n e; subst e; exact hloc
+  have g9 : Follow (tzText loc ++ k) clauseStop := follow_tz loc k _ (hk.mono (by decide)) (by decide)
+  have a9 : Ahead (tzText loc ++ k) NotFill := ahead_tz loc k (hk.mono (by decide))
+  have g7 : Follow (posText .SOFFSET so ++ (tzText loc ++ k)) [.AS, .COMMA, .INTO, .FROM, .WHERE, .GROUP, .ORDER, .LIMIT, .OFFSET, .SLIMIT] :=
+    Follow.opt (kwText_pos _ _) (by decide +kernel) rfl (by decide) (g9.mono (by decide))
+  have g6 : Follow (posText .SLIMIT sl ++ (posText .SOFFSET so ++ (tzText loc ++ k)))
+      [.AS, .COMMA, .INTO, .FROM, .WHERE, .GROUP, .ORDER, .LIMIT, .OFFSET] :=
+    Follow.opt (kwText_pos _ _) (by decide +kernel) rfl (by decide) (g7.mono (by decide))
+  have g5 : Follow (posText .OFFSET o ++ (posText .SLIMIT sl ++ (posText .SOFFSET so ++ (tzText loc ++ k))))
+      [.AS, .COMMA, .INTO, .FROM, .WHERE, .GROUP, .ORDER, .LIMIT] :=
+    Follow.opt (kwText_pos _ _) (by decide +kernel) rfl (by decide) (g6.mono (by decide))
+  have g4 : Follow (posText .LIMIT l ++ (posText .OFFSET o ++ (posText .SLIMIT sl ++ (posText .SOFFSET so ++ (tzText loc ++ k)))))
+      [.AS, .COMMA, .INTO, .FROM, .WHERE, .GROUP, .ORDER] :=
+    Follow.opt (kwText_pos _ _) (by decide +kernel) rfl (by decide) (g5.mono (by decide))
+  have g4o : Follow (orderText sf ++ (posText .LIMIT l ++ (posText .OFFSET o ++ (posText .SLIMIT sl ++
+      (posText .SOFFSET so ++ (tzText loc ++ k)))))) [.AS, .COMMA, .INTO, .FROM, .WHERE, .GROUP] :=
+    Follow.opt (kwText_order _) (by decide +kernel) rfl (by decide) (g4.mono (by decide))
+  have g4g : Follow (groupText ds ++ (orderText sf ++ (posText .LIMIT l ++ (posText .OFFSET o ++ (posText .SLIMIT sl ++
+      (posText .SOFFSET so ++ (tzText loc ++ k))))))) [.AS, .COMMA, .INTO, .FROM, .WHERE] :=
+    Follow.opt (kwText_group _) (by decide +kernel) rfl (by decide) (g4o.mono (by decide))
+  have g3 : Follow (whereText c ++ (groupText ds ++ (orderText sf ++ (posText .LIMIT l ++ (posText .OFFSET o ++
+      (posText .SLIMIT sl ++ (posText .SOFFSET so ++ (tzText loc ++ k)))))))) [.AS, .COMMA, .INTO, .FROM] :=
+    Follow.opt (kwText_where _) (by decide +kernel) rfl (by decide) (g4g.mono (by decide))
+  have g2 : Follow (fromQualText q qs ++ (whereText c ++ (groupText ds ++ (orderText sf ++ (posText .LIMIT l ++
+      (posText .OFFSET o ++ (posText .SLIMIT sl ++ (posText .SOFFSET so ++ (tzText loc ++ k))))))))) [.AS, .COMMA, .INTO] :=
+    Follow.opt (kwText_fromQual _ _) (by decide +kernel) rfl (by decide) (g3.mono (by decide))
+  have g1 : Follow (targetText tgt ++ (fromQualText q qs ++ (whereText c ++ (groupText ds ++ (orderText sf ++
+      (posText .LIMIT l ++ (posText .OFFSET o ++ (posText .SLIMIT sl ++ (posText .SOFFSET so ++ (tzText loc ++ k))))))))))
+      [.AS, .COMMA] :=
+    Follow.opt (kwText_target _) (by decide +kernel) rfl (by decide) (g2.mono (by decide))
+  -- fill() is absent: the head of what follows GROUP BY is not the word `fill`
+  have a4 : Ahead (orderText sf ++ (posText .LIMIT l ++ (posText .OFFSET o ++ (posText .SLIMIT sl ++
+      (posText .SOFFSET so ++ (tzText loc ++ k)))))) NotFill :=
+    Ahead.opt (kwText_order _) (by decide +kernel) (Or.inl (by decide))
+      (Ahead.opt (kwText_pos _ _) (by decide +kernel) (Or.inl (by decide))
+        (Ahead.opt (kwText_pos _ _) (by decide +kernel) (Or.inl (by decide))
+          (Ahead.opt (kwText_pos _ _) (by decide +kernel) (Or.inl (by decide))
+            (Ahead.opt (kwText_pos _ _) (by decide +kernel) (Or.inl (by decide)) a9))))
+  have hs0 : s.Before (' ' :: (f.print ++ (moreFields fs ++ (targetText tgt ++ (fromQualText q qs ++ (whereText c ++
+      (groupText ds ++ (orderText sf ++ (posText .LIMIT l ++ (posText .OFFSET o ++ (posText .SLIMIT sl ++
+      (posText .SOFFSET so ++ (tzText loc ++ k))))))))))))) := by
+    simpa [selectClausesText, List.append_assoc] using hs
+  suffices hgen : ∀ F, F = fuel + 3 → wp (runHandler (F + 1) .parseSelectStatement_targetNotRequired) s
+      (fun st s' => st = .select (clauseSelect f fs tgt q qs c ds sf l o sl so loc) ∧ RT.Stand s' k) (· = .fuel) from
+    hgen _ rfl
+  intro F hF
+  simp only [runHandler, parseSelect, parseSelectBody]
+  rw [wp_bind, wp_bind]
+  refine wp_mono (parseFields_print F s f fs _ hf g1 hs0) ?_ (fun _ h => h)
+  intro flds s1 ⟨hflds, st1⟩
+  subst hflds
+  obtain ⟨s2, lx3, s3, h2, h3, t3, b3⟩ := parseTarget_stand s1 tgt ((qualM q).print ++ (moreQuals qs ++ (whereText c ++
+      (groupText ds ++ (orderText sf ++ (posText .LIMIT l ++ (posText .OFFSET o ++ (posText .SLIMIT sl ++
+      (posText .SOFFSET so ++ (tzText loc ++ k)))))))))) ht
+    (by simpa [fromQualText, List.append_assoc] using g2.mono (by decide))
+    (by simpa [fromQualText, List.append_assoc] using st1)
+  have h3' : (expectTok .FROM ["FROM"]).run s2 = .ok ((), s3) := by
+    unfold expectTok
+    rw [P.run_bind _ _ _ _ _ h3]
+    simp [t3, StateT.run, pure, StateT.pure, Except.pure]
+  obtain ⟨s4, h4, st4⟩ := parseSourcesWith_quals (some (parseSelect F false)) s3 q qs _ hn (g3.mono (by decide)) b3
+  rw [wp_bind, wp_of_run_ok h2, wp_bind, wp_of_run_ok h3', wp_bind, wp_of_run_ok h4, wp_bind]
+  refine wp_mono (parseCondition_print F s4 c _ hc (g4g.mono (by decide)) st4) ?_ (fun _ h => h)
+  intro c' s5 ⟨hc', st5⟩
+  subst hc'
+  rw [wp_bind]
+  refine wp_mono (parseDimensions_print F s5 ds _ hds (g4o.mono (by decide)) st5) ?_ (fun _ h => h)
+  intro ds' s6 ⟨hds', st6⟩
+  subst hds'
+  obtain ⟨s7, h7, st7⟩ := parseFill_absent' F s6 _ a4 st6
+  obtain ⟨s8, h8, st8⟩ := parseOrderBy_print s7 sf _ hsf (g4.mono (by decide)) st7
+  obtain ⟨s9, h9, st9⟩ := parseOptTokInt_print .LIMIT (by decide +kernel) s8 l _ hl.1 hl.2 (g5.mono (by decide)) st8
+  obtain ⟨s10, h10, st10⟩ := parseOptTokInt_print .OFFSET (by decide +kernel) s9 o _ ho.1 ho.2 (g6.mono (by decide)) st9
+  obtain ⟨s11, h11, st11⟩ := parseOptTokInt_print .SLIMIT (by decide +kernel) s10 sl _ hsl.1 hsl.2 (g7.mono (by decide)) st10
+  obtain ⟨s12, h12, st12⟩ := parseOptTokInt_print .SOFFSET (by decide +kernel) s11 so _ hso.1 hso.2 (g9.mono (by decide)) st11
+  rw [wp_bind, wp_of_run_ok h7]
+  simp only []
+  rw [wp_bind, wp_of_run_ok h8, wp_bind, wp_of_run_ok h9, wp_bind, wp_of_run_ok h10, wp_bind, wp_of_run_ok h11,
+    wp_bind, wp_of_run_ok h12, wp_bind]
+  subst hF
+  refine wp_mono (parseLocation_print fuel s12 loc k hloc' (hk.mono (by decide)) st12) ?_ (fun _ h => h)
+  intro loc' s13 ⟨hl', st13⟩
+  subst hl'
+  rw [wp_pure, wp_pure]
+  refine ⟨?_, st13⟩
+  have hraw : (!(f :: fs).any fun g => g.expr.hasCall) = true := by
+    rw [Bool.not_eq_true', List.any_eq_false]
+    intro g hg
+    rw [hasCall_false g.expr (hf g hg).1]
+    simp
+  rw [hraw]
+  rfl
+
+/-- Non-vacuity: `SELECT a + 1 AS "x y", b INTO "my db"..tgt FROM db.rp."x.y", m WHERE … GROUP BY host, "my tag"
+ORDER BY time DESC LIMIT 10 SLIMIT 2 TZ('Europe/Berlin')`. -/
+def exDims : List Expr := [.varRef "host".toList .Unknown, .varRef "my tag".toList .Unknown]
+def exSort : List SortField := [⟨"time".toList, false⟩]
+def exLoc : Option Str := some "Europe/Berlin".toList
+def exClausesText : Str :=
+  selectClausesText exF1 [⟨.varRef ['b'] .Unknown, []⟩] exTgt exQ [([], [], ['m'])] exCond exDims exSort 10 0 2 0 exLoc
+
+example : exClausesText = (" a + 1 AS \"x y\", b INTO \"my db\"..tgt FROM db.rp.\"x.y\", m " ++
+    "WHERE host = 'a' AND (x > -1 OR y =~ /^b/) GROUP BY host, \"my tag\" ORDER BY time DESC LIMIT 10 SLIMIT 2 " ++
+    "TZ('Europe/Berlin')").toList := by decide +kernel
+
+example : ClauseSelect exF1 [⟨.varRef ['b'] .Unknown, []⟩] exTgt exQ [([], [], ['m'])] exCond exDims exSort 10 0 2 0 exLoc := by
+  decide +kernel
+
+-- not in the class: a sort field other than time, a location name with a quote
+example : sortOKB [⟨"host".toList, true⟩] = false ∧ locOKB (some "a'b".toList) = false ∧ locOKB (some []) = false := by
+  decide +kernel
+
+section
+attribute [local irreducible] wp
+example : wp (runHandler 204 .parseSelectStatement_targetNotRequired) (PState.init exClausesText [] [])
+    (fun st s' => st = .select (clauseSelect exF1 [⟨.varRef ['b'] .Unknown, []⟩] exTgt exQ [([], [], ['m'])] exCond exDims
+      exSort 10 0 2 0 exLoc) ∧ RT.Stand s' [eofRune]) (· = .fuel) :=
+  selectClauses_print_parse_partial 200 (PState.init exClausesText [] []) exF1 [⟨.varRef ['b'] .Unknown, []⟩] exTgt exQ
+    [([], [], ['m'])] exCond exDims exSort 10 0 2 0 exLoc [eofRune] (by decide +kernel) (Follow.eof _ (by decide))
+    (init_before exClausesText (by decide +kernel))
+end
+
+example : (match (runHandler 204 .parseSelectStatement_targetNotRequired).run (PState.init exClausesText [] []) with
+    | .ok (.select st, _) => st.print == tx "SELECT" ++ exClausesText
+    | _ => false) = true := by decide +kernel
 
 /-! ## passwords -/
 
